@@ -92,7 +92,7 @@ def parse_template(text):
                     buf = []
                 if head == 'fn':
                     cur = Directive('fn', words[1], ' '.join(w for w in words[2:] if '=' not in w and w not in ('trusted',)), parse_opts([w for w in words[2:] if '=' in w or w in ('trusted',)]), i + 1)
-                elif head in ('type', 'const', 'alias', 'static'):
+                elif head in ('type', 'const', 'alias', 'static', 'trait'):
                     d = Directive(head, words[1], words[2], parse_opts(words[3:]), i + 1)
                     out.append(('dir', d))
                 else:
@@ -719,6 +719,25 @@ def build_type(gen, d):
     gen.emit('', None)
 
 
+def build_trait(gen, d):
+    """`//@@ trait <file> <Name>`: the trait item verbatim (attributes dropped, X2); provided method bodies included"""
+    src, masked = load(d.file)
+    pos = [m.start() for m in re.finditer(r'\btrait\s+%s\b' % re.escape(d.sel), masked)]
+    pos = [p_ for p_ in pos if masked[:p_].count('{') == masked[:p_].count('}')]
+    if len(pos) != 1:
+        raise LostAnchor('%s: trait %s found %d times' % (d.file, d.sel, len(pos)))
+    j = first_body_brace(masked, pos[0], len(masked))
+    if masked[j] != '{':
+        raise LostAnchor('trait %s has no body' % d.sel)
+    k = match_close(masked, j)
+    item_id = len(gen.items)
+    gen.items.append({'id': item_id, 'kind': 'trait', 'name': d.sel, 'file': d.file, 'tags': [],
+                      'src_lines': [src.count('\n', 0, pos[0]) + 1, src.count('\n', 0, k) + 1]})
+    kw_line_start = src.rfind('\n', 0, pos[0]) + 1
+    gen.emit(src[kw_line_start:k + 1], item_id)
+    gen.emit('', None)
+
+
 def build_simple(gen, d):
     src, masked = load(d.file)
     kw = {'const': 'const', 'alias': 'type', 'static': 'static'}[d.kind]
@@ -768,6 +787,8 @@ def generate(unit_dir):
                 build_fn(gen, d)
             elif d.kind == 'type':
                 build_type(gen, d)
+            elif d.kind == 'trait':
+                build_trait(gen, d)
             else:
                 build_simple(gen, d)
     # line map
